@@ -217,6 +217,93 @@ class Condition:
         self.waiters = []
 
 
+class ProcLocalLock(Lock):
+    """threading.Lock as seen by forked processes: every process has its own copy, so it excludes nobody else.
+    (In the multiprocessing-mode scenarios each scheduled thread stands for one forked process.)"""
+
+    def __init__(self, *a, **k):
+        self.owners = {}
+
+    def acquire(self, blocking=True, timeout=-1):
+        s = CUR[0]
+        me = s.me() if s is not None else None
+        if me is None:
+            return True
+        s.block_until(lambda: self.owners.get(id(me)) is None, "lock.acquire(process-local)", id(self))
+        self.owners[id(me)] = True
+        return True
+
+    def release(self):
+        s = CUR[0]
+        me = s.me() if s is not None else None
+        self.owners.pop(id(me), None)
+
+    @property
+    def owner(self):
+        s = CUR[0]
+        me = s.me() if s is not None else None
+        return self.owners.get(id(me))
+
+    @owner.setter
+    def owner(self, v):
+        s = CUR[0]
+        me = s.me() if s is not None else None
+        if v is None:
+            self.owners.pop(id(me), None)
+        else:
+            self.owners[id(me)] = v
+
+
+class ProcLocalCondition(Condition):
+    """threading.Condition as seen by forked processes: notify() only reaches waiters of the same process."""
+
+    def __init__(self, lock=None):
+        self.lock = lock if lock is not None else ProcLocalLock()
+        self.waiters = []
+
+    def wait(self, timeout=None):
+        s = CUR[0]
+        if s is None or s.me() is None:
+            raise RuntimeError("wait() outside a scheduled thread: identifier left locked by set-up code")
+        tok = [False, id(s.me())]
+        self.waiters.append(tok)
+        self.lock.owner = None
+        s.block_until(lambda: tok[0], "cond.wait(process-local)", id(self))
+        s.block_until(lambda: self.lock.owner is None, "lock.reacquire", id(self.lock))
+        self.lock.owner = s.me()
+        return True
+
+    def notify(self, n=1):
+        s = CUR[0]
+        me = id(s.me()) if s is not None and s.me() is not None else None
+        mine = [w for w in self.waiters if w[1] == me]
+        if mine:
+            self.waiters.remove(mine[0])
+            mine[0][0] = True
+
+    def notify_all(self):
+        s = CUR[0]
+        me = id(s.me()) if s is not None and s.me() is not None else None
+        for w in [w for w in self.waiters if w[1] == me]:
+            w[0] = True
+            self.waiters.remove(w)
+
+
+def reset_primitives(instance):
+    """fresh lock / condition state for a new execution (a killed, deadlocked execution leaves waiters behind)"""
+    for v in list(instance.__dict__.values()):
+        if isinstance(v, ProcLocalLock):
+            v.owners = {}
+        elif isinstance(v, Lock):
+            v.owner = None
+        if isinstance(v, Condition):
+            v.waiters = []
+            if isinstance(v.lock, ProcLocalLock):
+                v.lock.owners = {}
+            else:
+                v.lock.owner = None
+
+
 class _Manager:
     def list(self, *a):
         return list(*a)
@@ -227,5 +314,8 @@ class _Manager:
 
 fthreading = types.SimpleNamespace(Lock=Lock, Condition=Condition, RLock=Lock, Thread=_th.Thread,
                                    current_thread=_th.current_thread, local=_th.local)
+# the threading module as it behaves across forked processes (used for the loaded module in multiprocessing mode)
+fthreading_proclocal = types.SimpleNamespace(Lock=ProcLocalLock, Condition=ProcLocalCondition, RLock=ProcLocalLock,
+                                             Thread=_th.Thread, current_thread=_th.current_thread, local=_th.local)
 fmultiprocessing = types.SimpleNamespace(Lock=Lock, Condition=Condition, RLock=Lock, Manager=lambda: _Manager(),
                                          cpu_count=lambda: 16)
